@@ -39,6 +39,7 @@ func walkWithEdits3(c *vlib.Case, mesh *model3d.Mesh, mod *model3, pool []C3, al
 	visitedF := map[*model3d.Triangle]int{}
 	visitedV := map[C3]int{}
 	edits := 0
+	mergedLarger := false
 	var bad string
 	edit := func() {
 		if edits >= 6 {
@@ -64,8 +65,11 @@ func walkWithEdits3(c *vlib.Case, mesh *model3d.Mesh, mod *model3, pool []C3, al
 		default:
 			other := model3d.NewMesh()
 			k := 1 + rng.Intn(3)
-			if rng.Intn(2) == 0 {
-				k = len(mod.faces) + 1 + rng.Intn(3) // strictly more faces than the receiver has now
+			if rng.Intn(2) == 0 && !mergedLarger && len(mod.faces) <= 150 {
+				// strictly more faces than the receiver has now (once per walk, small meshes only:
+				// each such merge doubles the mesh, and the comparisons after the walk are quadratic)
+				k = len(mod.faces) + 1 + rng.Intn(3)
+				mergedLarger = true
 			}
 			for i := 0; i < k; i++ {
 				f := newFace(pool, rng)
